@@ -6,16 +6,33 @@ import (
 	"github.com/canopy-network/canopy/lib"
 )
 
-// C01-L3 / C15-P2: the SafeNode predicate (bft.SafeNode) against the protocol's own view order
-// (lib.View.Less). Rounds restart at 0 on every NEW_COMMITTEE root-height reset while the lock
-// (HighQC) survives NewHeight(true), so the only order under which "a lock never moves backwards"
-// and "a newer quorum lock always unlocks" are both true is View.Less.
+// C01-L3 / C15-P2: the SafeNode predicate (bft.SafeNode) against the protocol's view order.
+// Rounds restart at 0 on every NEW_COMMITTEE root-height reset while the lock (HighQC) survives
+// NewHeight(true), so the only order under which "a lock never moves backwards" and "a newer quorum
+// lock always unlocks" are both true is the lexicographic order on (height, rootHeight, round,
+// phase). That order is spelled out here (zzViewLess) as the specification; lib.View.Less - the
+// code's own implementation of it - is checked against it separately (L3.view-order).
 //
 // Pre-conditions taken from the call site (CheckProposerMessage -> CheckHighQC, obligation L4):
 // the justification has the replica's height, network and chain, and phase PROPOSE_VOTE, as does
 // the lock (it was itself admitted as a PRECOMMIT certificate of PROPOSE_VOTE signatures).
-// The block/results hashes of the proposal are produced by the same functions SafeNode calls, so
-// the harness replays natively (sha256) as well as under the uninterpreted-hash model.
+// The block/results hashes of the proposal are produced by the same functions SafeNode calls, and
+// whether the lock names the same block / results is a symbolic choice, so the harness replays
+// natively (sha256) as well as under the uninterpreted-hash model.
+
+// zzViewLess: the specification of the view order.
+func zzViewLess(a, b *lib.View) bool {
+	if a.Height != b.Height {
+		return a.Height < b.Height
+	}
+	if a.RootHeight != b.RootHeight {
+		return a.RootHeight < b.RootHeight
+	}
+	if a.Round != b.Round {
+		return a.Round < b.Round
+	}
+	return a.Phase < b.Phase
+}
 
 func zzSafeNodeWorld() (b *BFT, msg *Message, lock, high *lib.View, sameAsLock bool) {
 	cur := zzView("cur")
@@ -28,18 +45,28 @@ func zzSafeNodeWorld() (b *BFT, msg *Message, lock, high *lib.View, sameAsLock b
 	blk := zzBytes("blk", 4)
 	res := &lib.CertificateResult{}
 	jb, jr := b.BlockToHash(blk), res.Hash()
-	lockB, lockR := zzBytes("lockBlockHash", 32), zzBytes("lockResultsHash", 32)
+	// the lock names the proposed block / results or something else (symbolic choice)
+	lockB, lockR := jb, jr
+	sameBlock, sameResults := zzBool("lockSameBlock"), zzBool("lockSameResults")
+	if !sameBlock {
+		lockB = zzBytes("lockBlockHash", 32)
+		zzAssume(!bytes.Equal(lockB, jb))
+	}
+	if !sameResults {
+		lockR = zzBytes("lockResultsHash", 32)
+		zzAssume(!bytes.Equal(lockR, jr))
+	}
 	b.HighQC = &QC{Header: lock, BlockHash: lockB, ResultsHash: lockR}
 	msg = &Message{
 		Qc:     &QC{Header: cur, Block: blk, Results: res},
 		HighQc: &QC{Header: high, BlockHash: jb, ResultsHash: jr},
 	}
-	sameAsLock = bytes.Equal(lockB, jb) && bytes.Equal(lockR, jr)
+	sameAsLock = sameBlock && sameResults
 	return
 }
 
-// L3 soundness: SafeNode accepts only the locked proposal itself or a proposal justified by a
-// certificate that is later than the lock in View.Less.
+// L3 soundness: SafeNode accepts only the locked proposal itself (same block AND same results) or a
+// proposal justified by a certificate that is later than the lock in the view order.
 //
 //zz:harness unwind=70
 //zz:reach L3.accept L3.reject
@@ -48,10 +75,24 @@ func ZZ_C01_L3_SafeNode_sound() {
 	err := b.SafeNode(msg)
 	if err == nil {
 		zzReach("L3.accept")
-		zzAssert("L3.lock-never-moves-backwards", same || lock.Less(high))
+		zzAssert("L3.lock-never-moves-backwards", same || zzViewLess(lock, high))
 	} else {
 		zzReach("L3.reject")
 	}
+}
+
+// lib.View.Less is the lexicographic order on (height, rootHeight, round, phase) - for arbitrary
+// views (all six fields symbolic), incl. irreflexivity and asymmetry.
+//
+//zz:harness unwind=70
+//zz:reach L3.order.done
+func ZZ_C01_L3_view_order() {
+	a, b := zzView("a"), zzView("b")
+	zzAssert("L3.view-order.is-lexicographic", a.Less(b) == zzViewLess(a, b))
+	zzAssert("L3.view-order.irreflexive", !a.Less(a))
+	zzAssert("L3.view-order.asymmetric", !(a.Less(b) && b.Less(a)))
+	zzAssert("L3.view-order.nil-is-least", (*lib.View)(nil).Less(a) && !a.Less(nil))
+	zzReach("L3.order.done")
 }
 
 // P2 completeness: a proposal that re-proposes the payload of a certificate later than the lock
@@ -66,7 +107,7 @@ func ZZ_C15_P2_SafeNode_complete() {
 	if same {
 		zzReach("P2.same")
 		zzAssert("P2.same-proposal-accepted", err == nil)
-	} else if lock.Less(high) {
+	} else if zzViewLess(lock, high) {
 		zzReach("P2.newer")
 		zzAssert("P2.newer-lock-unlocks", err == nil)
 	}
